@@ -302,37 +302,38 @@ def rule_model_tracks_extension(ctx):
                     out.append(s)
             return out
 
-        for es in stores(ext_f):
-            # SAT answers the stored set derives from (calls returning something with an Assignment in it)
-            srcs = []
-            for o in origins(b, es.node["rv"]["ops"][0] if es.node["rv"]["k"] == "use" else es.node["dst"], transparent=()) if es.node["rv"]["k"] == "use" else []:
+        def answer_sources(site):
+            """SAT answers (call results, or parameters, whose type holds an Assignment) the stored Some(..) derives from"""
+            out = set()
+            if site.node["rv"]["k"] != "use":
+                return out
+            pend = []
+            for o in origins(b, site.node["rv"]["ops"][0], transparent=()):
                 if o.kind == "agg" and o.data.get("variant") == "Some":
-                    for oo in origins(b, o.site.node["rv"]["ops"][0], transparent=()):
-                        if oo.kind == "call":
-                            srcs.append(oo)
-                elif o.kind == "call":
-                    srcs.append(o)
-            srcs = [o for o in srcs if "sat::sat_solver::Assignment" in b.local_ty(o.site.node["dst"]["l"])]
+                    pend += origins(b, o.site.node["rv"]["ops"][0], transparent=())
+                else:
+                    pend.append(o)
+            for oo in pend:
+                if oo.kind == "call" and "sat::sat_solver::Assignment" in b.local_ty(oo.site.node["dst"]["l"]):
+                    out.add(("call", oo.site.bb, oo.site.si))
+                elif oo.kind == "param" and "sat::sat_solver::Assignment" in b.local_ty(oo.data):
+                    out.add(("param", oo.data, None))
+            return out
+
+        for es in stores(ext_f):
+            srcs = answer_sources(es)
             if not srcs:
                 continue
             n += 1
             anchor = "%s|store-current#%d" % (b.id, n)
             ok = False
             for ms in stores(model_f):
-                msrc = set()
-                if ms.node["rv"]["k"] != "use":
-                    continue
-                for o in origins(b, ms.node["rv"]["ops"][0], transparent=()):
-                    if o.kind == "agg" and o.data.get("variant") == "Some":
-                        for oo in origins(b, o.site.node["rv"]["ops"][0], transparent=()):
-                            if oo.kind == "call":
-                                msrc.add((oo.site.bb, oo.site.si))
-                same = any((o.site.bb, o.site.si) in msrc for o in srcs)
+                same = bool(srcs & answer_sources(ms))
                 together = (b.dominates(es.bb, ms.bb) and b.postdominates(ms.bb, es.bb)) or (b.dominates(ms.bb, es.bb) and b.postdominates(es.bb, ms.bb))
                 if same and together:
                     ok = True
             r.check(ok, anchor, "stale-model", "the model of the same SAT answer is stored on the same path", "`%s` is replaced by the set of a SAT answer but `%s` keeps the model of an earlier answer: the range splitters work on a stale model" % (ext_f, model_f), es.loc())
-    r.floor(n, 2, "places where the computer adopts the set of a SAT answer")
+    r.floor(n, 1, "places where the computer adopts the set of a SAT answer")
 
 
 def rule_single_computation(ctx):
